@@ -50,8 +50,13 @@ RULES = {
     "source has one (`new.name = old.name if <old has a name> else new.name`, or the store under an `if`), the test is the "
     "truthiness of the name - `is not None` lets the empty name of an omitted optional output through, and the value it "
     "overwrites may have consumers inside the rewritten region (an inlined call `'', y = F(x)` blanks the producer that y reads)",
+    "R12": "a truncation point is a position, not a count: where a pass shortens a node's inputs or outputs (`resize_inputs`, "
+    "`resize_outputs`), the new size is the position after the last element that is kept - found by a scan from the end that "
+    "stops (`break`) at the first kept element, or an index - and never the number of elements satisfying a predicate "
+    "(`sum(1 for v in inputs if …)`, `len([… if …])`, a counter incremented in a loop that runs to the end): with an omitted "
+    "optional input in the middle the count is smaller than the position and real inputs are cut off",
 }
-FLOORS = {"R1": 5, "R2": 6, "R3": 8, "R4": 6, "R5": 8, "R6": 2, "R7": 1, "R8": 10, "R9": 1, "R10": 3, "R11": 1}
+FLOORS = {"R1": 5, "R2": 6, "R3": 8, "R4": 6, "R5": 8, "R6": 2, "R7": 1, "R8": 10, "R9": 1, "R10": 3, "R11": 1, "R12": 2}
 EXPLANATION = (
     "Four structural necessary conditions of semantic preservation that the pass mechanisms rely on: guarded removal, "
     "interface-size preservation (call-site scan with receiver typing), data-dependence of the equivalence keys on all "
@@ -782,7 +787,59 @@ def rule_r11(ctx):
     ctx.require(n >= 1, "no conditional name transfer found in the passes / rewriting helpers")
 
 
+def rule_r12(ctx):
+    n = 0
+    for f in _pass_funcs(ctx):
+        if isinstance(f.node, ast.Lambda):
+            continue
+        for c in calls_in(f):
+            if not (isinstance(c.func, ast.Attribute) and c.func.attr in ("resize_inputs", "resize_outputs") and c.args):
+                continue
+            n += 1
+            # defining expressions of the new size, through locals
+            exprs, names, seen = [c.args[0]], set(), set()
+            for _ in range(4):
+                for e in list(exprs):
+                    for x in ast.walk(e):
+                        if isinstance(x, ast.Name) and x.id not in seen:
+                            seen.add(x.id)
+                            names.add(x.id)
+                            for a in own_nodes(f.node):
+                                if isinstance(a, (ast.Assign, ast.AugAssign)) and any(
+                                        isinstance(t, ast.Name) and t.id == x.id for t in (a.targets if isinstance(a, ast.Assign) else [a.target])):
+                                    exprs.append(a.value)
+            bad = None
+            for e in exprs:
+                for x in ast.walk(e):
+                    if isinstance(x, ast.Call) and dotted_of(x.func) in ("sum", "len") and x.args and isinstance(x.args[0], (ast.GeneratorExp, ast.ListComp, ast.SetComp)) \
+                            and any(g.ifs for g in x.args[0].generators):
+                        bad = x
+                    if isinstance(x, ast.Call) and isinstance(x.func, ast.Attribute) and x.func.attr == "count":
+                        bad = x
+            # a counter stepped inside a loop that never stops early counts matching elements, wherever they are
+            for a in own_nodes(f.node):
+                if isinstance(a, ast.AugAssign) and isinstance(a.target, ast.Name) and a.target.id in names:
+                    lp = next((p_ for p_ in _anc_nodes(a, f.node) if isinstance(p_, (ast.For, ast.While))), None)
+                    if lp is not None and any(isinstance(p_, ast.If) for p_ in _anc_nodes(a, lp)) and not any(isinstance(y, (ast.Break, ast.Return)) for y in ast.walk(lp)):
+                        bad = bad or a
+            ctx.check("R12", f"{f.local}: the size given to {norm(c)[:50]} is a position", bad is None, f, bad if bad is not None else c,
+                      f"`{norm(bad) if bad is not None else ''}` counts the elements that satisfy a condition; as the new size of the node's inputs/outputs it equals the "
+                      "position after the last kept element only if all dropped elements are trailing - with an omitted optional input in the middle "
+                      "(`LSTM(X, W, R, '', '', h0, c0, '')`) real inputs are cut off and the node computes something else",
+                      how="defining expressions of the resize argument: filtered counts and exhaustive counter loops",
+                      construct=f"filtered count as new size in {f.local}")
+    ctx.require(n >= 2, f"only {n} resize calls found in the passes")
+
+
+def _anc_nodes(node, stop):
+    p_ = getattr(node, "_parent", None)
+    while p_ is not None and p_ is not stop:
+        yield p_
+        p_ = getattr(p_, "_parent", None)
+
+
 def run(ctx):
+    rule_r12(ctx)
     rule_r11(ctx)
     rule_r10(ctx)
     rule_r8(ctx)
